@@ -99,6 +99,9 @@ def run_sequence(case, on_step=None):
             # the marker is what makes marker -> boyd_split / binarize a prerequisite-respecting sequence
             raise violation(prefix + "/heads-not-established", "after the head marker some constituent has no head child or several (labels %r)"
                             % (sorted(set(n["l"] for n in M.constituents(cur)))[:8],))
+        if fn == "boyd_split" and not split_flags_ok(cur):
+            # likewise boyd_split -> raising: every node carries the split / head-block flags raising reads
+            raise violation(prefix + "/split-flags-not-established", "after boyd_split some node has no split or head-block flag")
         # ---- sentence
         if [t["w"] for t in M.toks(cur)] != words:
             raise violation(prefix + "/words-changed", "%r" % ([t["w"] for t in M.toks(cur)],))
